@@ -30,6 +30,10 @@ func signerKeyOfKind(kind string) crypto.Signer {
 		return keyFor(kind)
 	case "rsa2048-opaque":
 		return opaqueSigner{keyFor("rsa2048")}
+	case "rsa1024-opaque":
+		return opaqueSigner{keyFor("rsa1024")}
+	case "rsa2047-opaque":
+		return opaqueSigner{keyFor("rsa2047")}
 	case "p224":
 		return keyFor("p224-a")
 	case "p256":
